@@ -248,8 +248,9 @@ func decodeOut(pi []byte) M {
 func runF(op string, in M) (M, M) {
 	switch op {
 	case "vrf.Prove":
-		seed, alpha := vBytes(in["seed"]), vBytes(in["alpha"])
-		ref := refProve(seed, alpha)
+		// seed and alpha live in the caller's buffers, reused from call to call with other contents
+		seed, alpha := vBuf("vrf seed", in["seed"]), vBuf("vrf alpha", in["alpha"])
+		ref := refProve(append([]byte{}, seed...), append([]byte{}, alpha...))
 		out := M{}
 		out["panic"] = vCatch(func() {
 			priv := NewKeyFromSeed(seed)
@@ -259,6 +260,7 @@ func runF(op string, in M) (M, M) {
 			out["priv"], out["pub"], out["proof"] = vInts(priv), vInts(pub), vInts(pi)
 			ok, beta := Verify(pub, alpha, pi)
 			out["verify_ok"], out["verify_beta"] = ok, vInts(beta)
+			vOwnOrKeep("vrf.Verify beta", beta)
 			h1 := p.Hash()
 			h2 := p.Hash()
 			out["proof_hash"], out["proof_hash2"], out["proof_bytes_after_hash"] = vInts(h1), vInts(h2), vInts(p.Bytes())
@@ -304,6 +306,7 @@ func TestVerifDriver(t *testing.T) {
 		out, facts := runF(op, in)
 		rec.i++
 		rec.count++
+		vPost(out)
 		b, err := json.Marshal(map[string]interface{}{"t": rec.t, "i": rec.i, "op": op, "in": in, "out": out, "facts": facts})
 		if err != nil {
 			panic(err)
